@@ -19,6 +19,26 @@ def uRange (t : String) : Option Nat :=
 /-- `sc <type> p <hex>` parse / `sc <type> w <value>` write -/
 def runSC (args : List String) : String :=
   match args with
+  | ["enumc", rep, lo, hi, op, arg] =>
+    match unhex rep, lo.toInt?, hi.toInt? with
+    | some r, some lo, some hi =>
+      let e : EnumClass := { rep := r.takeWhile (· != 0), min := lo, max := hi }
+      if op == "s" then
+        match unhex arg with
+        | some t =>
+          let res := e.parse (t.takeWhile (· != 0))
+          match res.2 with
+          | some v => if res.1 == 0 then "n:0:-" else s!"n:{res.1}:{v}"
+          | none => "n:0:-"
+        | none => "bad-op"
+      else if op == "i" then
+        match arg.toInt? with
+        | some v => match e.nameOf v with
+          | some nm => if nm.isEmpty then "none" else hex nm
+          | none => "none"
+        | none => "bad-op"
+      else "bad-op"
+    | _, _, _ => "bad-op"
   | [t, "p", h] =>
     match unhex h with
     | none => "bad-op"
